@@ -51,7 +51,9 @@ type Query implements Named {
   stray: Lister
   strays: [Lister]
   ginp(in: GIn, ins: [GIn]): String
+  pairs: [Pair]
 }
+type Pair { str: String num: Int sub: Pair }
 interface Lister { items(first: Int): String sub: Lister }
 type LA implements Lister { items(after: String, first: Int, tags: [String!] = ["t"]): String sub: LA }
 type LB implements Lister { items(first: Int): String sub: LB }
@@ -77,10 +79,24 @@ type RQ struct {
 	// values under interface typed fields whose Go type is bound to no implementer
 	Stray  interface{}
 	Strays []interface{}
+	// values of two Go struct types under one object type (a data bug, or two row types that were
+	// meant to look alike): the second lacks members the first one bound the fields to
+	Pairs []interface{}
 	// Go fields a GraphQL field name matches without regard to case but that are not exported
 	hidden  string
 	Private int
 	private int
+}
+
+type RPairA struct {
+	Str string
+	Num int
+	Sub *RPairA
+}
+
+type RPairB struct {
+	Title string
+	Sub   *RPairA
 }
 
 type ROther struct {
@@ -162,6 +178,7 @@ func newRQ(depth int) *RQ {
 		q.Listers = []interface{}{&RLA{}, &RLB{}, &RLA{}}
 		q.Stray = &RStray{Sub: &RStray{}}
 		q.Strays = []interface{}{&RLA{}, &RStray{}, nil, &RLB{}}
+		q.Pairs = []interface{}{&RPairA{Str: "a", Num: 1, Sub: &RPairA{Str: "s"}}, &RPairB{Title: "t", Sub: &RPairA{}}, nil, &RPairA{Str: "c"}, RPairB{Title: "by value"}}
 	}
 	return q
 }
